@@ -151,7 +151,7 @@ def c02(prop, tier):
 def lc_cfg():
     return ('Lifecycle.cfg', '''SPECIFICATION Spec
 CONSTANTS CloseKinds = {"store", "store-twice", "instance", "instance-twice", "instance-cancelled", "drop"}
-  PostOps = {"put", "get", "load", "sync", "close", "drop", "subscribe"}
+  PostOps = {"put", "get", "load", "sync", "close", "drop", "subscribe", "reopen-and-drop"}
 INVARIANTS NothingLeftRunning DataSurvives
 CHECK_DEADLOCK FALSE
 ''')
@@ -162,13 +162,13 @@ def c18(prop, tier):
     ck = Check(prop, tier)
     thorough = tier == 'thorough'
     ck.rule = ('moments of spec/Lifecycle.tla (writer at append|persist|index|emit, replication waiting for a slot|fetching|fetched|joining|'
-               'indexed|persisted, load at its head) reached on a real instance with on-disk LevelDB directories by gates; then Close, '
-               'Close twice, instance Close (once, twice) or Drop; goroutines started since the store was opened are identified by id and '
+               'indexed|persisted, load at its head or waiting for a block nobody holds) reached on a real instance with on-disk LevelDB directories by gates; then Close, '
+               'Close twice, instance Close (once, twice, after its context ended) or Drop; after a store Close the database is opened again and the closed handle dropped; goroutines started since the store was opened are identified by id and '
                'must be gone; operations after close run under a watchdog; the directory is reopened; a sibling database is checked; '
                'non-trivial = moment with at least one activity in flight')
     r = vlib.tlc_check('Lifecycle.tla', lc_cfg(), 'C18-small')
     ck.require_model_ok(r, 'Lifecycle: moments x close kinds x later operations')
-    sims, _ = vlib.tlc_simulate('Lifecycle.tla', lc_cfg(), 'C18-sim', 400 if thorough else 60, 22, SEED)
+    sims, _ = vlib.tlc_simulate('Lifecycle.tla', lc_cfg(), 'C18-sim', 500 if thorough else 140, 24, SEED)
     # keep one behaviour per (moment, close kind); behaviours that never close are of no use
     seen, bs = set(), []
     for b in sims:
